@@ -59,6 +59,7 @@ AccInit == [bad |-> {},          \* <<phase, op>> : the API answered badly (5xx 
 Init == /\ t \in 1..Len(Runs) /\ l = 1 /\ mon = MonInit /\ acc = AccInit /\ why = ""
 
 IsUnit(ph) == ph \in {2, 3, 4}
+StopRequested == acc.stopped \/ acc.ctrlc      \* EventStream.stop() was called, or Ctrl-C reached the consumer (both are stop requests)
 RateJitter == (Hdr.rateW * 3) \div 5       \* scheduling jitter allowance for the rate-limit clause (timing, not logic; generous: arrival times are taken by a loaded server thread)
 CountThr(S, thr) == Cardinality({x \in S : x[1] = thr})
 
@@ -76,7 +77,7 @@ Step ==
                  !.nfe = IF x.k = "NFE" THEN @ \cup {<<x.ph, x.op>>} ELSE @,
                  !.badRecorded = @ /\ (x.k = "ScF" => x.reqok),
                  !.crashed = @ \/ x.ctxerr # "",
-                 !.scsAfterStopUnit = IF x.k = "ScS" /\ acc.stopped /\ IsUnit(x.ph) THEN @ + 1 ELSE @,
+                 !.scsAfterStopUnit = IF x.k = "ScS" /\ StopRequested /\ IsUnit(x.ph) THEN @ + 1 ELSE @,
                  !.limitAt = IF @ = 0 /\ x.k = "ScF" /\ IsBad(x.st) /\ MaxFail # 0 /\ mon.nbad + 1 >= MaxFail THEN x.ph ELSE @]
        [] x.e = "R" ->
             /\ acc' = [acc EXCEPT
@@ -85,18 +86,18 @@ Step ==
                  !.sent = @ \cup {<<x.ph, x.op, acc.nreq + 1>>},
                  !.dup = @ \/ (IsUnit(x.ph) /\ <<x.op, x.dg>> \in acc.digests),
                  !.digests = IF IsUnit(x.ph) THEN @ \cup {<<x.op, x.dg>>} ELSE @,
-                 !.reqAfterStopStateful = IF acc.stopped /\ x.ph = Stateful THEN @ + 1 ELSE @,
+                 !.reqAfterStopStateful = IF StopRequested /\ x.ph = Stateful THEN @ + 1 ELSE @,
                  !.times = IF Hdr.rateL > 0 THEN Append(@, x.t) ELSE @,
                  !.rateBad = @ \/ (Hdr.rateL > 0 /\ Len(acc.times) >= Hdr.rateL
                                      /\ x.t - acc.times[Len(acc.times) - Hdr.rateL + 1] < Hdr.rateW - RateJitter)]
             /\ UNCHANGED mon
        [] x.e = "SEND" ->
-            /\ acc' = [acc EXCEPT !.afterStop = IF acc.stopped THEN @ \cup {<<x.thr, CountThr(@, x.thr) + 1>>} ELSE @,
+            /\ acc' = [acc EXCEPT !.afterStop = IF StopRequested THEN @ \cup {<<x.thr, CountThr(@, x.thr) + 1>>} ELSE @,
                                   !.afterLimit = IF acc.limited THEN @ \cup {<<x.thr, CountThr(@, x.thr) + 1>>} ELSE @]
             /\ UNCHANGED mon
        [] x.e = "COUNT" -> acc' = [acc EXCEPT !.limited = @ \/ x.limit] /\ UNCHANGED mon
        [] x.e = "QPUT" ->
-            /\ acc' = [acc EXCEPT !.putAfterStop = IF acc.stopped /\ x.k = "ScS" THEN @ \cup {<<x.thr, CountThr(@, x.thr) + 1>>} ELSE @]
+            /\ acc' = [acc EXCEPT !.putAfterStop = IF StopRequested /\ x.k = "ScS" THEN @ \cup {<<x.thr, CountThr(@, x.thr) + 1>>} ELSE @]
             /\ UNCHANGED mon
        [] x.e = "STOP" -> acc' = [acc EXCEPT !.stopped = TRUE] /\ UNCHANGED mon
        [] x.e = "CTRLC" -> acc' = [acc EXCEPT !.ctrlc = TRUE] /\ UNCHANGED mon
